@@ -157,12 +157,22 @@ func TestVerifCrashChild(t *testing.T) {
 		c16say("idle")
 		time.Sleep(time.Hour) // wait for the kill
 	case "verify":
+		// every answer is kept until all lookups are done and only then reported: what a lookup returned must still be the
+		// stored VAA after later lookups (callers such as the batch RPCs hold several results at once)
+		type ans struct {
+			b   []byte
+			err error
+		}
+		held := make([]ans, 0, nkeys+5)
 		for k := 0; k < nkeys+5; k++ {
 			b, err := d.GetSignedVAABytes(c16id(seed, k))
+			held = append(held, ans{b, err})
+		}
+		for k, a := range held {
 			switch {
-			case err == nil:
-				c16say(fmt.Sprintf("rec %d ok %s", k, hex.EncodeToString(b)))
-			case err == ErrVAANotFound:
+			case a.err == nil:
+				c16say(fmt.Sprintf("rec %d ok %s", k, hex.EncodeToString(a.b)))
+			case a.err == ErrVAANotFound:
 				c16say(fmt.Sprintf("rec %d notfound", k))
 			default:
 				c16say(fmt.Sprintf("rec %d err", k))
